@@ -23,7 +23,9 @@ CFG = {
         "comparator enters the heap model only as le a b := (Comparator(a,b) <= 0); theorems assume it total and transitive (premises, "
         "proved for the two int comparators used)",
     ],
-    "modelled": ["circularbuffer.New panics for maxSize < 1 (outside the property: capacity >= 1)",
+    "modelled": ["a call that does not return (watchdog, 10 s) is a violation decided by the harness",
+                 "Size() seen by a user comparator during Push/Pop/Values (Check.v SCmpSizes: the size after the call), judged in Coq, no theorem",
+                 "circularbuffer.New panics for maxSize < 1 (outside the property: capacity >= 1)",
                  "reflect.DeepEqual is gone from circularbuffer after the repair; Go make() zero-filling as repeat 0"],
     "assumptions": ["element type int", "capacities 1..5 exercised, theorem for every capacity >= 1"],
 }
